@@ -593,6 +593,63 @@ def parse_attrs_path():
             routes, perf_attr_arms, diff_attr_arms, map_arms, calc)
 
 
+# ------------------------------------------------------------------ effect inventory (C01, C10, C11, C20)
+
+EFFECT_KINDS = [
+    ("hash-iteration", r"\b(HashMap|HashSet|RandomState)\b"),
+    ("static-mut", r"\bstatic\s+mut\b"),
+    ("static", r"^\s*(?:pub(?:\([a-z]+\))?\s+)?static\s+(?!mut\b)\w+\s*:"),
+    ("thread-local", r"\bthread_local!|\bLocalKey\b"),
+    ("lazy-init", r"\b(OnceCell|OnceLock|LazyLock|LazyCell|lazy_static!|Lazy<)"),
+    ("interior-mutability", r"\b(Cell<|RefCell|UnsafeCell|Mutex|RwLock|Atomic\w+)"),
+    ("clock", r"\b(Instant|SystemTime|UNIX_EPOCH)\b"),
+    ("environment", r"\b(std::env|env::var|env::args|std::process)\b"),
+    ("ambient-rng", r"\b(rand::|thread_rng|OsRng|getrandom)"),
+    ("filesystem", r"\b(File::|fs::|read_to_string|from_path)\b"),
+    ("address", r"as \*const [^;]* as usize|as_ptr\(\) as usize|\.addr\(\)|ptr::addr_of|{:p}"),
+]
+
+
+def strip_test_modules(nc):
+    """removes `#[cfg(test)] mod name { ... }` blocks"""
+    out = nc
+    while True:
+        m = re.search(r"#\[cfg\(test\)\]\s*(?:pub\s+)?mod\s+\w+\s*\{", out)
+        if not m:
+            return out
+        end = match_brace(out, m.end() - 1)
+        if end < 0:
+            return out[:m.start()]
+        out = out[:m.start()] + re.sub(r"[^\n]", " ", out[m.start():end + 1]) + out[end + 1:]
+
+
+def source_files():
+    res = []
+    for root, _, files in os.walk(os.path.join(REPO, "src")):
+        for f in sorted(files):
+            if f.endswith(".rs"):
+                res.append(os.path.relpath(os.path.join(root, f), REPO))
+    return sorted(res)
+
+
+def parse_effects():
+    effects, unsafes, features = [], [], []
+    for rel in source_files():
+        if rel.endswith("verif.rs"):
+            continue            # verification hooks, compiled only under cfg(rosu_pp_verif)
+        nc = strip_test_modules(strip_comments(read(rel)))
+        for kind, pat in EFFECT_KINDS:
+            n = len(re.findall(pat, nc, flags=re.M))
+            if n:
+                effects.append(f"({coq_str(rel)}, {coq_str(kind)}, {n}%Z)")
+        n = len(re.findall(r"\bunsafe\b", nc))
+        if n:
+            unsafes.append(f"({coq_str(rel)}, {n}%Z)")
+        for fm in sorted(set(re.findall(r"feature\s*=\s*\"(\w+)\"", nc))):
+            features.append(f"({coq_str(rel)}, {coq_str(fm)})")
+    return effects, unsafes, features
+
+
 # ------------------------------------------------------------------ emit
 
 def generate():
@@ -602,6 +659,7 @@ def generate():
     has_rows, attr_rows, macro_rows, key_rows, rate_rows = parse_mods()
     trees, delegate, flags, entries = parse_conversion()
     dpay, ppay, routes, perf_arms, diff_arms, map_arms, calc = parse_attrs_path()
+    effects, unsafes, features = parse_effects()
     L = []
     A = L.append
     A("(* GENERATED by tools/extract.py from the repository's current source - do not edit.")
@@ -661,6 +719,11 @@ def generate():
     A("Definition into_map_arms : list (mode * mode) := " + coq_list(f"({a}, {b})" for a, b in map_arms if a in MODES and b in MODES) + ".")
     A("(* (mode, function, mode the Map arm calculates for, Map arm found, calls generate_state) *)")
     A("Definition perf_map_arms : list (mode * string * mode * bool * bool) :=\n  " + coq_list(calc).replace("; (", ";\n   (") + ".")
+    A("")
+    A("(* ---- every non-test source file: ambient-effect sites, unsafe, cfg(feature) ---- *)")
+    A("Definition effect_sites : list (string * string * Z) :=\n  " + coq_list(effects).replace("; (", ";\n   (") + ".")
+    A("Definition unsafe_sites : list (string * Z) :=\n  " + coq_list(unsafes).replace("; (", ";\n   (") + ".")
+    A("Definition feature_sites : list (string * string) :=\n  " + coq_list(features).replace("; (", ";\n   (") + ".")
     return "\n".join(L) + "\n"
 
 
